@@ -15,13 +15,11 @@
 package annotation
 
 import (
-	"cmp"
 	"fmt"
 	"go/ast"
 	"go/token"
 	"go/types"
 	"regexp"
-	"slices"
 	"strings"
 
 	"go.uber.org/nilaway/config"
@@ -172,43 +170,13 @@ type ArgLocAndVal struct {
 // Range calls the passed function `op` on each annotation site in this map that has
 // is<Deep?>NilableSet true.
 func (m *ObservedMap) Range(op func(key Key, isDeep bool, val bool)) {
-	// The annotations are stored in Go maps, whose iteration order is random. The order in which
-	// the sites are observed is visible in the exported facts, so we first collect the explicitly
-	// set annotations and then visit them in a deterministic order (declaration position of the
-	// annotated object, then the key representation, then shallow before deep).
-	type entry struct {
-		key    Key
-		isDeep bool
-		val    bool
-	}
-	var entries []entry
-	defer func() {
-		slices.SortStableFunc(entries, func(a, b entry) int {
-			if n := cmp.Compare(a.key.Object().Pos(), b.key.Object().Pos()); n != 0 {
-				return n
-			}
-			if n := cmp.Compare(a.key.String(), b.key.String()); n != 0 {
-				return n
-			}
-			if a.isDeep == b.isDeep {
-				return 0
-			}
-			if !a.isDeep {
-				return -1
-			}
-			return 1
-		})
-		for _, e := range entries {
-			op(e.key, e.isDeep, e.val)
-		}
-	}()
 
 	callOpOnKeyVal := func(key Key, val Val) {
 		if val.IsNilableSet {
-			entries = append(entries, entry{key: key, isDeep: false, val: val.IsNilable})
+			op(key, false /* isDeep */, val.IsNilable)
 		}
 		if val.IsDeepNilableSet {
-			entries = append(entries, entry{key: key, isDeep: true, val: val.IsDeepNilable})
+			op(key, true /* isDeep */, val.IsDeepNilable)
 		}
 	}
 
